@@ -277,6 +277,39 @@ class SeqPart(Sym):
         return f"SeqPart({self.name})"
 
 
+class ListSeg(SeqPart):
+    """the elements of a list of symbolic length (a snapshot of a SymList) as one segment of an SList: what
+    `xs + [y]`, `[y] + xs`, `ys.extend(xs)` make.  Folds distribute over the segments; looking inside is Unsupported."""
+    __slots__ = ('lst',)
+
+    def __init__(self, lst):
+        self.lst = lst
+        self.name = lst.name
+
+    @property
+    def n(self):
+        return self.lst.n
+
+    @n.setter
+    def n(self, v):
+        pass
+
+    def __repr__(self):
+        return f"ListSeg({self.lst!r})"
+
+
+class ObjView:
+    """a single concrete object seen as a one-element view (so that a fold's term can be taken of it)"""
+    __slots__ = ('obj', 'funcs')
+
+    def __init__(self, obj, funcs):
+        self.obj = obj
+        self.funcs = funcs
+
+    def field(self, f, zi=None):
+        return _field_z3(self.obj.fields[f], self.funcs[f][1])
+
+
 class SymColl(Sym):
     """a list / tuple / set of symbolic length whose elements are opaque: one SeqPart"""
     __slots__ = ('pytype', 'part')
